@@ -18,8 +18,8 @@ i.e. without `NameError` / `AttributeError` on a lena module / `ImportError` for
 | clause | here |
 |---|---|
 | 1a "every name a subpackage advertises in `__all__` exists, so star imports work" | `exported_of_resolvesAll`, `exported_envs`; instance `all_exported` (`__all__` must be a literal list: `allDynamic = false` is part of the conclusion, a computed `__all__` makes the check fail) |
-| 1b "every public element behaves the same with only its own subpackage imported" | **not proved**: `behaves_same_full` (definition); `behaves_same_partial` is what the model says; evidence: behaviour cases only |
-| 2a "no code path can fail by referring to a name that is not defined" | `resolver_sound`, `resolver_sound_envs`, converse `resolver_alarm_is_real`; instance `current_tree_safe`. Global names, import-bound locals, module aliases, closure cells, attributes of lena modules; ordinary locals: `no_unbound_local_full` (definition), `locals_audited_partial` |
+| 1b "every public element behaves the same with only its own subpackage imported" | **not proved** as stated: `behaves_same_full` (definition); what the model says: `behaves_same_partial` (no name failure in either interpreter) and `handlers_order_independent` / `handlers_order_independent_envs` (every function takes the same handlers for undefined-name failures — `try: … lena.structures.x … except AttributeError`, `hasattr(lena, "x")`, `getattr(lena, "x", None)` — in both interpreters; instance `current_handlers_order_independent`); evidence beyond that: behaviour cases, import-time handlers and module state observed in the fresh interpreters |
+| 2a "no code path can fail by referring to a name that is not defined" | `resolver_sound`, `resolver_sound_envs`, converse `resolver_alarm_is_real`; instance `current_tree_safe`. Global names, import-bound locals, module aliases, closure cells, attributes of lena modules; ordinary locals: `no_unbound_local_full` (definition, NOT proved and no obligation: the reads CPython cannot prove bound are facts, listed in the evidence; `locals_audited_partial` is an auxiliary lemma about that list) |
 | 2b "invalid arguments and missing keys are reported with the documented LenaException subclasses" | **not proved** as stated: `invalid_arguments_reported_full` (definition); proved over the facts: `exceptions_of_ok` (every `raise` statement names a documented exception) |
 | anchor "all Lena exceptions derive from LenaException" | `exceptions_of_ok`; instance `lena_exceptions_derive` |
 | anchor "`lena.<pkg>` exists only after somebody imported it" | `module_value_is_imported`, `sys_modules_grow`, `loaded_within_closure` |
@@ -694,6 +694,118 @@ example :
     (match importMod (⟨[⟨0, none, 4, none, false, [.ext 0, .bind 5], []⟩], [], 3, [], 16, 2, 1, [1], [], none, [], []⟩ : Facts) 3 0 State.init with
      | .ok (σ, some 0) => decide (σ.statusOf 0 = .failed)
      | _ => false) = true := by
+  decide
+
+/-! ## `else:` of a `try`; handlers that run (clause 1b as far as names go) -/
+
+/-- the `else:` part of a `try` statement: reached after the handler ran, it is skipped (up to
+`tryEnd`); reached while the handler is being skipped — the body ran to its end — it runs; and
+while an exception unwinds it is passed over like any other event, so that a failure *inside* the
+`else:` part is not caught by the handler of its own `try` (it has left `tryExcept` behind) -/
+theorem try_else_step (F : Facts) (imp : Imp) (sc : Scope) (x : Exc) (d r : Nat) (rest : List Ev)
+    (saved : List (State × Ns)) (loc : Ns) (σ : State) :
+    execEvs F imp sc (.tryElse :: rest) .run saved loc σ = execEvs F imp sc rest (.skipping 0 0) saved loc σ ∧
+    execEvs F imp sc (.tryElse :: rest) (.skipping 0 r) saved loc σ = execEvs F imp sc rest .run saved loc σ ∧
+    execEvs F imp sc (.tryElse :: rest) (.skipping (d + 1) r) saved loc σ
+      = execEvs F imp sc rest (.skipping (d + 1) r) saved loc σ ∧
+    execEvs F imp sc (.tryElse :: rest) (.raising x d r) saved loc σ
+      = execEvs F imp sc rest (.raising x d r) saved loc σ := by
+  simp only [execEvs, and_self]
+
+/-- `try: a = …  except <NameError …>: b = …  else: <load 7>` (names `5`, `6`): the body runs to
+its end, the handler is skipped, the `else:` part runs — and its `NameError` is the result,
+although the handler catches `NameError` -/
+example : execEvs emptyFacts (fun _ s => .ok (s, none)) ⟨0, none⟩
+      [.tryBegin, .bind 5, .tryExcept 6, .bind 6, .tryElse, .load 7, .tryEnd] .run [] [] State.init
+    = .error (.nameError 0 none 7) := rfl
+
+/-- the same statement whose *body* fails: the handler runs, the `else:` part does not (its load of
+the undefined name `8` is never executed), the code after the statement does -/
+example : (match execEvs emptyFacts (fun _ s => .ok (s, none)) ⟨0, none⟩
+      [.tryBegin, .load 7, .tryExcept 6, .bind 6, .tryElse, .load 8, .tryEnd, .bind 5] .run [] [] State.init with
+    | .ok out => decide (out.σ.get emptyFacts 0 6 = some .obj) && decide (out.σ.get emptyFacts 0 5 = some .obj)
+    | .error _ => false) = true := by decide
+
+/-- **The traced call is the call**: `callCaught` is computed by an interpreter that returns what
+`callFn` returns — the trace of caught failures is an additional output, not another semantics -/
+theorem callFn_eq_traced (F : Facts) (m : ModId) (f : Func) (σ : State) :
+    callFn F m f σ =
+      match (execEvsT F (importMod F F.depth) ⟨m, some f.name⟩ f.evs .run [] [] σ []).1 with
+      | .error e => .error e
+      | .ok out => .ok out.σ := by
+  rw [execEvsT_fst]
+  rfl
+
+/-- a handler that catches a would-be failure records it, unless it repairs it by importing
+(bit 3 of the mask); the `ImportError` of an absent third-party module is not recorded (that is
+the environment, not the import order) -/
+theorem traceCatch_spec (mask : Nat) (e : Err) (x : Nat) (tr : List Err) :
+    traceCatch mask (.err e) tr = (if Nat.land mask 8 != 0 then tr else tr ++ [e]) ∧
+    traceCatch mask (.ext x) tr = tr := by
+  simp only [traceCatch, and_self]
+
+/-- **Handlers are import-order independent** (for all facts).  If `orderIndependent F` holds,
+then for every entry point `own` (a fresh interpreter that imported only `lena.X`) and the entry
+point `whole` that imports the whole framework: every function that can be called after
+`import lena.X` — and every such function is defined in a module that the whole framework has
+imported, too — catches, when it is called, exactly the same undefined-name failures
+(`NameError`, `AttributeError` on a lena module, `ImportError` for a lena name) in the one
+interpreter as in the other.  So no `try … except AttributeError`, `hasattr(lena, "x")` or
+`getattr(lena, "x", default)` in the function takes the handler with only its own sub-package
+imported and the body after the whole framework has been imported (or the other way round). -/
+theorem handlers_order_independent (F : Facts) (h : orderIndependent F = true)
+    (whole : ModId) (hw : wholeEntry F = some whole) (σw : State) (hiw : importEntry F whole = .ok (σw, none))
+    (own : ModId) (ho : own ∈ F.entries) (σo : State) (hio : importEntry F own = .ok (σo, none))
+    (m : ModId) (f : Func) (hc : Callable F σo m f) (hcw : σw.statusOf m = .done) :
+    callCaught F m f σo = callCaught F m f σw := by
+  unfold orderIndependent at h
+  simp only [hw, hiw, State.force_eq, List.all_eq_true] at h
+  have h1 := h own ho
+  unfold orderIndependentEntry orderIndependentStates at h1
+  simp only [hio, State.force_eq, List.all_eq_true] at h1
+  have h2 := h1 (m, f) (mem_callables F σo m f hc)
+  simp only [hcw, Bool.or_eq_true, Bool.not_eq_true'] at h2
+  rcases h2 with h2 | h2
+  · rw [callCaught_nil F m f σo h2, callCaught_nil F m f σw h2]
+  · exact (errsBeq_iff _ _).1 h2
+
+/-- … in every environment of `F.envs` -/
+theorem handlers_order_independent_envs (F : Facts) (h : orderIndependentEnvs F = true) (env : Nat)
+    (henv : env ∈ F.envs)
+    (whole : ModId) (hw : wholeEntry F = some whole) (σw : State)
+    (hiw : importEntry (F.withEnv env) whole = .ok (σw, none))
+    (own : ModId) (ho : own ∈ F.entries) (σo : State) (hio : importEntry (F.withEnv env) own = .ok (σo, none))
+    (m : ModId) (f : Func) (hc : Callable (F.withEnv env) σo m f) (hcw : σw.statusOf m = .done) :
+    callCaught (F.withEnv env) m f σo = callCaught (F.withEnv env) m f σw := by
+  unfold orderIndependentEnvs at h
+  rw [List.all_eq_true] at h
+  exact handlers_order_independent (F.withEnv env) (h env henv) whole hw σw hiw own ho σo hio m f hc hcw
+
+/-- a package `0` (attribute name `4`) with the sub-packages `1` (attribute name `5`; its function
+`9` asks `hasattr(lena, <6>)`, i.e. reads `lena.<6>` guarded) and `2` (attribute name `6`); entry
+points `3` = `import lena.<5>` and `4` = `import lena.<5>, lena.<6>` (the whole framework) -/
+def exampleOrder (mask : Nat) : Facts :=
+  ⟨[⟨0, none, 4, none, false, [], []⟩,
+    ⟨1, some 0, 5, none, false, [.ensure 0, .bindMod 7 0],
+      [⟨9, 1, [.tryBegin, .attr 7 [6], .tryExcept mask, .tryEnd]⟩]⟩,
+    ⟨2, some 0, 6, none, false, [.ensure 0], []⟩,
+    ⟨3, none, 10, none, false, [.ensure 0, .ensure 1], []⟩,
+    ⟨4, none, 11, none, false, [.ensure 0, .ensure 1, .ensure 2], []⟩],
+   [3, 4], 3, [], 16, 3, 0, [0], [], none, [], []⟩
+
+/-- non-vacuity, both ways: the function resolves in both interpreters (`resolvesAll`), but it
+catches an `AttributeError` on `lena` with only its own sub-package imported and nothing after
+the whole framework has been imported: `orderIndependent` is false.  With the lazy-import mask
+(bit 3) the same function is accepted, and so is a function without such a question. -/
+example :
+    (resolvesAll (exampleOrder 4) && !orderIndependent (exampleOrder 4) &&
+     orderIndependent (exampleOrder 12) &&
+     (match importEntry (exampleOrder 4) 3, importEntry (exampleOrder 4) 4 with
+      | .ok (σo, none), .ok (σw, none) =>
+        decide (callCaught (exampleOrder 4) 1 ⟨9, 1, [.tryBegin, .attr 7 [6], .tryExcept 4, .tryEnd]⟩ σo
+                  = [.attrError 1 (some 9) 7 0 6]) &&
+        decide (callCaught (exampleOrder 4) 1 ⟨9, 1, [.tryBegin, .attr 7 [6], .tryExcept 4, .tryEnd]⟩ σw = [])
+      | _, _ => false)) = true := by
   decide
 
 /-! ## exceptions: "reported with the documented LenaException subclasses", "all Lena exceptions
